@@ -29,7 +29,7 @@ POINTS = ['lazy_required', 'provided_hash', 'provided_eq', 'name_hash', 'name_bo
           'uncached_entry', 'uncached_exit', 'spec_weakref', 'spec_subscribe', 'providedBy_descr', 'provides_descr',
           'conform', 'factory', 'value_del', 'generation_attr', 'generation_attr_2nd', 'sro_attr', 'super_self']
 ACTIONS = ['register', 'unregister', 'subscribe', 'unsubscribe', 'changed', 'rebase', 'reenter_same',
-           'reenter_other', 'raise', 'gc', 'register_flood', 'changed_flood']
+           'reenter_other', 'raise', 'gc', 'register_flood', 'changed_flood', 'reenter_then_base']
 
 
 class Boom(Exception):
@@ -416,6 +416,11 @@ class Case:
             self.reentrant_results.append(self.reg.lookup([self.IR0], self.IP, 'other-name'))
             self.reentrant_results.append(self.reg.lookup([self.IR], self.IP, 'n'))
             self.reentrant_results.append(self.reg.lookup1(self.IR, self.IP, 'n'))
+        elif a == 'reenter_then_base':
+            # an answer is computed (and cached) from inside the callback, then a registry *above* changes
+            self.reentrant_results.append(self.call_entry(self.reg, self.entry, hostile=False))
+            self.release_audit(lambda: (self.mutate('top', 'subscribe', [self.IR0], self.IP, self.newval()),
+                                        self.mutate('top', 'register', [self.IR0], self.IP, 'zz', self.newval())))
         elif a == 'raise':
             raise Boom(self.point)
         elif a == 'gc':
